@@ -155,7 +155,7 @@ def expected_in(case, tc):
     n = 0
     for rid in G.eff_in(case, tc):
         n += 1
-        if G.verdict_of(tc, "in", rid) in ("r", "f"):
+        if G.verdict_of(tc, "in", rid) in ("r", "f", "x"):
             break
     return G.eff_in(case, tc)[:n]
 
@@ -177,7 +177,8 @@ def turn_oracle(case, tc, to, after_fault):
     last_gen = max(gen_idx) if gen_idx else -1
     out_ids = [s[2] for i, s in enumerate(steps) if s[0] == "rail" and s[1] == "out" and i > last_gen]
     carries_llm_text = bot in text
-    rail_fault = [s for s in steps if s[0] == "rail" and G.verdict_of(tc, s[1], s[2]) == "f"]
+    # "f": the rail's action raises; "x": the rail's own LLM call fails (if the call returns at all, the content is not approved either)
+    rail_fault = [s for s in steps if s[0] == "rail" and G.verdict_of(tc, s[1], s[2]) in ("f", "x")]
     if rail_fault:
         # "the content that action was guarding is treated as not approved, so the reply is a refusal or the fixed internal-error message"
         ok = (rep["role"] == "assistant" and text in (G.REFUSAL, G.INTERNAL_ERROR)) or (case["exc"] and rep["exc"] in ("InputRailException", "OutputRailException") and (case["ver"] == "1.0" or text == ""))
